@@ -115,7 +115,9 @@ def rule_n2(ctx, R, rid="N2"):
           "R1 no write to shared state can precede a refusal point (own assert/raise, a notification the namespace "
           "manager can veto, a callee that can dispatch one) on any path of any mutator; R1c the same for the compound "
           "create_* constructors (writes to the half-built FRESH element are not shared writes); N2 the namespace "
-          "manager's handlers never reach a refusal point after an index update. Decides the ordering clause that makes "
+          "manager's handlers never reach a refusal point after an index update; R1d once shared state is written, the membership "
+          "guard of a called mutator is implied by what the caller checked (directly, by a universally quantified assert over the "
+          "iterated collection, or because the receiver was read from the argument's own back pointer). Decides the ordering clause that makes "
           "'a refused edit changes nothing' hold; does not decide refusals by third-party listeners or type errors.",
           ["the set of vetoable event kinds is computed from the namespace manager's call graph; create_* kinds are "
            "excluded (a brand-new element has nothing to conflict with)"])
@@ -393,7 +395,7 @@ def _e_args(ctx, R):
           "an announced change is still pending (announced, then refused); E3 every write to a relation field "
           "(containment, connection, reference, outer pins, top instance, data) is dominated on every path by the "
           "dispatch of an announcing event kind, interprocedurally (a helper's write may be announced by its caller); "
-          "E3a dispatch arity/first argument. Decides that announcements exist and come first; does not decide that the "
+          "E3a dispatch arity/first argument; E5 the element a relation write concerns is one the dispatch named; E5b a bulk removal dispatches the removal event in a loop over exactly the set the rebuilt container excludes. Decides that announcements exist and come first; does not decide that the "
           "arguments suffice for an exact mirror, nor duplicate announcements.",
           ["writes on objects created by a clone are clone-internal (decided under C07); only writes that leave the clone "
            "through a cross pointer are subject to E3"])
